@@ -461,3 +461,98 @@ Proof.
   - rewrite <- EA, <- EB in *. destruct (length I) as [|k] eqn:El; [reflexivity|].
     assert (E0 : (Z.of_nat (S k) =? 0) = false) by (apply Z.eqb_neq; lia). rewrite E0. cbn [Nat.eqb]. f_equal. lia.
 Qed.
+
+(* ================================================================== *)
+(* the two halves, separately (for Props/C08.v and Props/C09.v)          *)
+(* ================================================================== *)
+Lemma rp_fresh_add_node st n a t idx b st' sg :
+  do_add_node st n a (Some (t, idx)) = Ok b st' -> seg st = Some sg ->
+  ~ is_node st n -> n <> 0 -> NoDup (keys a) -> lookup KTime a = Some (VZ t) -> ~ In KTime (rp_act (ft st)) ->
+  hits sg t idx -> nodes_sane st sg -> only_touches sg t idx n ->
+  rp_fresh st -> rp_fresh st'.
+Proof. intros. eapply (proj1 (fresh_add_node st n a t idx b st' sg ltac:(eassumption) ltac:(eassumption) ltac:(assumption) ltac:(assumption) ltac:(assumption) ltac:(assumption) ltac:(assumption) ltac:(assumption) ltac:(assumption) ltac:(assumption))). assumption. Qed.
+
+Lemma iou_fresh_add_node st n a t idx b st' sg :
+  do_add_node st n a (Some (t, idx)) = Ok b st' -> seg st = Some sg ->
+  ~ is_node st n -> n <> 0 -> NoDup (keys a) -> lookup KTime a = Some (VZ t) -> ~ In KTime (rp_act (ft st)) ->
+  hits sg t idx -> nodes_sane st sg -> only_touches sg t idx n -> edges_sane st ->
+  iou_fresh st -> iou_fresh st'.
+Proof. intros. eapply (proj2 (fresh_add_node st n a t idx b st' sg ltac:(eassumption) ltac:(eassumption) ltac:(assumption) ltac:(assumption) ltac:(assumption) ltac:(assumption) ltac:(assumption) ltac:(assumption) ltac:(assumption) ltac:(assumption))); assumption. Qed.
+
+Lemma rp_fresh_upd_seg st n t idx added b st' sg :
+  do_upd_seg st n (t, idx) added = Ok b st' -> seg st = Some sg ->
+  is_node st n -> ~ In KTime (rp_act (ft st)) -> nodes_sane st sg ->
+  (forall i, (i < length (frame_of sg t))%nat -> In (Z.of_nat i) idx ->
+     label_at sg t i = n \/ (added = true /\ label_at sg t i = 0)) ->
+  mask_of (paint_arr sg t idx (if added then n else 0)) (time_of st n) n <> [] ->
+  rp_fresh st -> rp_fresh st'.
+Proof. intros H1 H2 H3 H4 H5 H6 H7. exact (proj1 (fresh_upd_seg st n t idx added b st' sg H1 H2 H3 H4 H5 H6 H7)). Qed.
+
+Lemma iou_fresh_upd_seg st n t idx added b st' sg :
+  do_upd_seg st n (t, idx) added = Ok b st' -> seg st = Some sg ->
+  is_node st n -> ~ In KTime (rp_act (ft st)) -> nodes_sane st sg ->
+  (forall i, (i < length (frame_of sg t))%nat -> In (Z.of_nat i) idx ->
+     label_at sg t i = n \/ (added = true /\ label_at sg t i = 0)) ->
+  mask_of (paint_arr sg t idx (if added then n else 0)) (time_of st n) n <> [] ->
+  edges_sane st -> iou_fresh st -> iou_fresh st'.
+Proof. intros H1 H2 H3 H4 H5 H6 H7. exact (proj2 (fresh_upd_seg st n t idx added b st' sg H1 H2 H3 H4 H5 H6 H7)). Qed.
+
+(* the IoU stored for the edges incident to the repainted node is recomputed from the new masks;
+   stated directly: after UpdateNodeSeg every edge carries iou_of of the new array *)
+
+Lemma rp_fresh_other st :
+  (forall u v a b st', do_add_edge st u v a = Ok b st' -> rp_fresh st -> rp_fresh st') /\
+  (forall u v b st', do_del_edge st u v = Ok b st' -> rp_fresh st -> rp_fresh st') /\
+  (forall n new b st', do_upd_attrs st n new = Ok b st' -> incl (rp_act (ft st)) (rp_all (ft st)) -> rp_fresh st -> rp_fresh st') /\
+  (forall s T L b st', do_upd_track st s T L = Ok b st' -> ~ In KTrack (rp_act (ft st)) -> ~ In KLin (rp_act (ft st)) ->
+     rp_fresh st -> rp_fresh st') /\
+  (forall n b st', do_del_node st n None = Ok b st' -> W_seg st -> rp_fresh st -> rp_fresh st') /\
+  (forall n t idx b st' sg, do_del_node st n (Some (t, idx)) = Ok b st' -> seg st = Some sg ->
+     nodes_sane st sg -> only_touches sg t idx n -> rp_fresh st -> rp_fresh st').
+Proof.
+  split; [|split; [|split; [|split; [|split]]]].
+  - intros u v a b st' H. exact (proj1 (fresh_add_edge _ _ _ _ _ _ H)).
+  - intros u v b st' H. exact (proj1 (fresh_del_edge _ _ _ _ _ H)).
+  - intros n new b st' H Hi. exact (proj1 (fresh_upd_attrs _ _ _ _ _ H Hi)).
+  - intros s T L b st' H H1 H2. exact (proj1 (fresh_upd_track _ _ _ _ _ _ H H1 H2)).
+  - intros n b st' H HW. exact (proj1 (fresh_del_node_own _ _ _ _ H HW)).
+  - intros n t idx b st' sg H Hs Hsane Ht. refine (proj1 (fresh_del_node _ _ _ _ _ H _)).
+    intros sg1 p Hs1 Ep. rewrite Hs in Hs1. injection Hs1 as <-. cbn in Ep. injection Ep as <-. auto.
+Qed.
+
+Lemma iou_fresh_add_edge st u v a b st' : do_add_edge st u v a = Ok b st' -> iou_fresh st -> iou_fresh st'.
+Proof. intros H. exact (proj2 (fresh_add_edge _ _ _ _ _ _ H)). Qed.
+
+(* in particular the new edge carries the IoU of its endpoint masks (whatever the caller passed) *)
+Lemma add_edge_iou st u v a b st' sg : do_add_edge st u v a = Ok b st' -> seg st = Some sg -> iou_act (ft st) = true ->
+  edge st' u v /\ lookup KIou (edge_attrs st' u v) = Some (iou_of st' sg u v) /\ seg st' = Some sg.
+Proof.
+  intros Hdo Hs Hact. destruct (add_edge_effect st u v a) as (E1 & E2 & E3). rewrite Hdo in E1, E2, E3. cbn [rstate] in *.
+  unfold do_add_edge in Hdo. destruct (negb (has_node st u)); [discriminate|]. destruct (negb (has_node st v)); [discriminate|].
+  injection Hdo as _ Hst'.
+  set (s1 := upd_g st {| nodes := nodes (g st); succs := set u (set v (update (edge_attrs st u v) a) (adj st u)) (succs (g st)) |}) in *.
+  destruct (edge_put st s1 u v (update (edge_attrs st u v) a) eq_refl) as [P1 P2].
+  assert (Hs1 : seg s1 = Some sg) by exact Hs. assert (Ha1 : iou_act (ft s1) = true) by exact Hact.
+  destruct (iou_update_spec s1 sg [(u, v)] Hs1 Ha1) as (U1 & U2 & U3). rewrite Hst' in U1, U2, U3.
+  assert (He1 : has_edge s1 u v = true) by (rewrite P1, !Z.eqb_refl; reflexivity).
+  split; [unfold edge; now rewrite U1|]. split; [|now rewrite E1].
+  rewrite (U2 u v (or_introl eq_refl) He1). f_equal. symmetry. now apply iou_of_nodes.
+Qed.
+
+Lemma iou_fresh_other st :
+  (forall u v b st', do_del_edge st u v = Ok b st' -> iou_fresh st -> iou_fresh st') /\
+  (forall n new b st', do_upd_attrs st n new = Ok b st' -> incl (rp_act (ft st)) (rp_all (ft st)) -> iou_fresh st -> iou_fresh st') /\
+  (forall s T L b st', do_upd_track st s T L = Ok b st' -> ~ In KTrack (rp_act (ft st)) -> ~ In KLin (rp_act (ft st)) ->
+     iou_fresh st -> iou_fresh st') /\
+  (forall n b st', do_del_node st n None = Ok b st' -> W_seg st -> edges_sane st -> iou_fresh st -> iou_fresh st') /\
+  (forall n t idx b st' sg, do_del_node st n (Some (t, idx)) = Ok b st' -> seg st = Some sg ->
+     nodes_sane st sg -> only_touches sg t idx n -> edges_sane st -> iou_fresh st -> iou_fresh st').
+Proof.
+  split; [|split; [|split; [|split]]].
+  - intros u v b st' H. exact (proj2 (fresh_del_edge _ _ _ _ _ H)).
+  - intros n new b st' H Hi. exact (proj2 (fresh_upd_attrs _ _ _ _ _ H Hi)).
+  - intros s T L b st' H H1 H2. exact (proj2 (fresh_upd_track _ _ _ _ _ _ H H1 H2)).
+  - intros n b st' H HW. exact (proj2 (fresh_del_node_own _ _ _ _ H HW)).
+  - intros n t idx b st' sg H Hs Hsane Ht. refine (proj2 (fresh_del_node _ _ _ _ _ H _)).
+    intros sg1 p Hs1 Ep. rewrite Hs in Hs1. injection Hs1 as <-. cbn in Ep. injection Ep as <-. auto.
+Qed.
